@@ -70,6 +70,7 @@ MODULES = [
     ("require-as", "(require vfc15mac :as P)\n(setv v (P.m1) w (P.bang!))\n"),
     ("require-names", "(require vfc15mac [m1 m2 :as z])\n(setv v (m1) w (z 5))\n"),
     ("require-dup-alias", "(require vfc15mac [m1 :as one  m2  m1 :as uno  m2 :as deux])\n(setv v [(one) (uno) (m2 1) (deux 2)])\n"),
+    ("require-submodules", "(require vfc15pkg [sub :as T other])\n(setv v [(T.add-one 1) (T.twice 4) (other.neg 3)])\n(defn late [] (hy.eval '(T.twice 5)))\n(setv w (late))\n"),
     ("require-star", "(require vfc15mac *)\n(setv v [(m1) (m2 0) (bang!)])\n"),
     ("require-star-export", "(require vfc15exp *)\n(setv v [(m2) (m3)])\n"),
     ("require-private", "(require vfc15mac [_private])\n(setv v (_private))\n"),
@@ -175,6 +176,12 @@ def spec(tier, seed):
                 f.write(MACRO_MODULE)
             with open(os.path.join(tmp, "vfc15exp.hy"), "w") as f:
                 f.write(MACRO_MODULE_EXPORT)
+            # a package without macros of its own, whose submodules hold the macros: (require pkg [sub :as S other])
+            os.makedirs(os.path.join(tmp, "vfc15pkg"))
+            for fn, text in (("__init__.hy", "(setv marker 1)\n"), ("sub.hy", "(defmacro add-one [x] `(+ ~x 1))\n(defmacro twice [x] `(* ~x 2))\n"),
+                             ("other.hy", "(defmacro neg [x] `(- ~x))\n")):
+                with open(os.path.join(tmp, "vfc15pkg", fn), "w") as f:
+                    f.write(text)
             for name, src in MODULES:
                 modname = "vfc15_" + name.replace("-", "_")
                 problems = []
@@ -221,7 +228,7 @@ def spec(tier, seed):
         "grade": "R/D: paths from folded selectors; import histories are concrete runs of the real importlib machinery in a temporary directory",
         "functions_encoded": ["hy.importer._could_be_hy_src", "hy.importer._hy_source_to_code (via importlib: source import then cached import)",
                               "hy.core.result_macros.compile_require / defmacro / defreader (the run-time code they emit)", "hy.macros.require, require_vals, enable_readers"],
-        "bounds": "every path of length <= %d over %r plus %d hand-written paths; %d module sources (plain values, own macros, require bare / :as / names with aliases (also one macro under two aliases) / * / with export list / "
+        "bounds": "every path of length <= %d over %r plus %d hand-written paths; %d module sources (plain values, own macros, require bare / :as / names with aliases / submodules of a macro-less package (also one macro under two aliases) / * / with export list / "
                   "private / :readers / local / in a class, macro using a required macro, shebang + docstring, let/comprehension) each imported from source and again from the .pyc with a fresh "
                   "module object, and executed from marshalled code in a fresh module" % (maxlen, PALPH, len(cands), len(MODULES)),
         "outside": "NOT APPLICABLE part: importlib's pyc validation (mtime/size/hash, invalidation on source change) and the OS file layer are C/OS code outside any encoding here; modules with "
